@@ -769,7 +769,7 @@ fn run_tablemc(tier: &str) -> i32 {
             "traces_validated_against_impl": o.recovers,
             "evaluations": o.tables,
             "distinct_nontrivial": o.tables,
-            "rule": "every (stream, writer setting) pair of the enumerated stream family x 216 settings is written by the real table::Writer (one distinct table each), recovered under 2 (quick) or 4 (thorough) recover variants and probed: metadata, scan, iter fwd/rev, every bound pair over keys and gaps x next/next_back interleavings, get for every key x seqno",
+            "rule": "every (stream, writer setting) pair of the enumerated stream family x 324 settings is written by the real table::Writer (one distinct table each), recovered under 2 (quick) or 4 (thorough) recover variants and probed: metadata, scan, iter fwd/rev, every bound pair over keys and gaps x next/next_back interleavings, get for every key x seqno",
             "samples": o.samples,
             "exhaustive": !o.capped,
             "capped": o.capped,
